@@ -66,6 +66,21 @@ type Cell struct {
 	T      types.Type // type of the content
 }
 
+// ArrVal is the value of a (small) array whose elements are known cell by cell: what a load of a
+// whole array yields and what a store of it copies.
+type ArrVal struct {
+	E []AVal
+	T types.Type
+}
+
+func (a ArrVal) Key() string {
+	ks := make([]string, len(a.E))
+	for i, e := range a.E {
+		ks[i] = keyOf(e)
+	}
+	return "[" + strings.Join(ks, ",") + "]"
+}
+
 // Ptr points to a cell.
 type Ptr struct{ C *Cell }
 
